@@ -13,7 +13,9 @@ HERE = os.path.dirname(os.path.dirname(os.path.abspath(__file__)))
 SCR = "/tmp/sw_matrix"
 # checks besides the property's own one that look at the same code
 EXTRA = {"C03": ["C02", "C05"], "C08": ["C02", "C09"], "C09": ["C10", "C14"], "C19": ["C06"], "C14": ["C15"], "C02": ["C05", "C03"],
-         "C15": ["C14"], "C06": [], "C04": [], "C13": ["C02", "C06", "C10"]}
+         "C15": ["C14"], "C06": [], "C04": [], "C13": ["C02", "C06", "C10"], "C12": ["C15"]}
+# per-change override (third round): the kernels touched by these changes belong to other properties' contracts
+EXTRA_BY_ID = {"C13-4": ["C12"], "C13-5": ["C01"], "C11-4": ["C13"]}
 CLAIMED = [c["property_id"] for c in json.load(open(os.path.join(HERE, "MANIFEST.json")))["checks"]]
 
 
@@ -33,7 +35,7 @@ def one(sid):
         if a.returncode != 0:
             res["error"] = "patch does not apply: " + a.stderr[-200:]
             return res
-        checks = [c for c in [prop] + EXTRA.get(prop, []) if c in CLAIMED]
+        checks = [c for c in [prop] + EXTRA_BY_ID.get(sid, EXTRA.get(prop, [])) if c in CLAIMED]
         for c in checks:
             env = dict(os.environ, PVC_REPO=wt, PVC_OUT=out, PVC_JOBS="6")
             p = subprocess.run(["./check", c, "--tier", "quick"], cwd=HERE, capture_output=True, text=True, env=env)
